@@ -47,7 +47,7 @@ class C19(Prop):
     shrink_key = None
     rule = ("EXHAUSTIVE over the property's whole domain: every (class, year, month) with class in the eight built-in "
             "futures and year 1970..2099 (12 480 contracts): expiry, last trading date and symbol compared exactly with "
-            "the model and with the rule computed from the standard library; plus chain spans: all built-in classes, "
+            "the model and with the rule computed from the standard library (refused constructor calls - a float year, month 13, a string year - interleaved); plus chain spans: all built-in classes, "
             "random (start, end) month pairs inside 1970..2099 including the full span, listing / ordering / unique "
             "symbols / discontinuation events, the latter two also with the shared simulation clock moved inside and past the span, and the events again after the caller edited the list it was given. Non-trivial = every case (each covers a whole class or a whole chain); "
             "distinct = distinct (class) / (class, span)")
@@ -76,6 +76,14 @@ class C19(Prop):
         name = case["cls"]
         if case["kind"] == "table":
             for y in range(1970, 2100):
+                if y % 3 == 0:
+                    # a constructor call the library refuses (a float year) right before the contracts of that very
+                    # year are built: the refusal leaves nothing behind
+                    for bad in ((y, 13), (str(y), 6), (float(y), 3)):
+                        try:
+                            cls(*bad)
+                        except Exception:  # noqa
+                            pass
                 for m in range(1, 13):
                     f = cls(y, m)
                     e, l = f.expiry, f.last_trading_date
